@@ -7,6 +7,7 @@
 From Coq Require Import ZArith List Bool Lia.
 From DG Require Import CaseFormat ProtoWireRef ThriftWire ThriftWireProofs Json JsonProofs Num NumProofs Base64 Base64Proofs
                        T2J T2JProofs J2T J2TProofs RoundTrip RoundTripProofs Check02 Check13.
+From DG Require ProtoMsg ProtoMsgProofs P2J J2P RoundTripP RoundTripPProofs Check13b.
 Import ListNotations.
 Local Open Scope Z_scope.
 
@@ -192,3 +193,67 @@ Example C13_quirk_alias_refuted :
   j2t_text strict (defs_for 1 exD_alias) (mkOpts false false false false) (TStruct 0) [123; 34; 107; 34; 58; 53; 125] = Ok [0] /\
   encode (VStruct [(1, VI32 5)]) <> [0].
 Proof. vm_compute. repeat split; try reflexivity. discriminate. Qed.
+
+(* ================================================================= Protobuf half, on the two specs =================================
+   P2J.pjson_of (message -> document) followed by J2P.pdenote (document -> message) returns the message, up to the packing of
+   numeric repeated fields (m_norm: the j2p denotation always packs; the proved decoder reads either form).  Hypotheses in the
+   statement: the two formatter contracts of P2J.v's exact-decimal printer (double, and float widened to double), the schema's
+   JSON names select their own fields, and the packed form of the message is well-formed for the schema: that excludes numeric
+   repeated fields declared [packed=false], for which J2P.pdenote itself is undefined (its final wf test), and carries the size
+   bounds (2^64 bytes) that re-packing is not shown to keep. *)
+Module ProtoHalf.
+Import ProtoMsg ProtoMsgProofs P2J J2P RoundTripP RoundTripPProofs Check13b.
+
+Theorem C13_p2j_j2p_denotes : f64_lex_contract -> f32_lex_contract -> forall S dis root m,
+  schema_names_ok S -> wf_msg S root m = true -> p_dom S LSingular (TMsg root) (VMsg m) = true ->
+  wf_msg S root (m_norm m) = true ->
+  exists j, pjson_of S RoundTripPProofs.p2j_plain root m = Some j /\ pdenote dis S root j = ROk (m_norm m).
+Proof. exact p2j_j2p_denotes. Qed.
+Print Assumptions C13_p2j_j2p_denotes.
+
+Theorem C13_p2j_j2p_bytes : f64_lex_contract -> f32_lex_contract -> forall S dis root m,
+  schema_names_ok S -> wf_msg S root m = true -> p_dom S LSingular (TMsg root) (VMsg m) = true ->
+  wf_msg S root (m_norm m) = true ->
+  exists j b, pjson_of S RoundTripPProofs.p2j_plain root m = Some j /\ j2p_spec dis S root j = ROk b /\
+              decode_top S root b = Some (m_norm m).
+Proof. exact p2j_j2p_bytes. Qed.
+Print Assumptions C13_p2j_j2p_bytes.
+
+Theorem C13_m_norm_idem : forall m, m_norm (m_norm m) = m_norm m.
+Proof. exact m_norm_idem. Qed.
+Print Assumptions C13_m_norm_idem.
+
+(* non-vacuity: a schema with every label, a message in the domain, and the round trip computed on the specs (no hypothesis) *)
+Definition exS : schema :=
+  [ mk_mdesc [77] [ mk_fdesc 1 [97] [97] LSingular (TScalar 3); mk_fdesc 2 [98] [98] (LRepeated true) (TScalar 5);
+                    mk_fdesc 3 [99] [99] (LMap 9) (TScalar 12); mk_fdesc 4 [100] [100] LSingular (TMsg [77]);
+                    mk_fdesc 5 [101] [101] (LRepeated true) (TScalar 1); mk_fdesc 6 [102] [102] LSingular (TScalar 9) ] ].
+Definition exM : pmsg :=
+  [ (1, VScalar 3 (- 2 ^ 63)); (2, VList true [VScalar 5 3; VScalar 5 (-1)]); (3, VMap [(KStr [107], VBytes 12 [0; 255])]);
+    (5, VList true [VScalar 1 4591870180066957722; VScalar 1 4607182418800017408]);
+    (4, VMsg [ (6, VBytes 9 []); (1, VScalar 3 (2 ^ 63 - 1)) ]) ].
+Example C13_ex_proto_schema_ok : schema_names_ok exS.
+Proof.
+  intros md fd [<-|[]] Hin. cbn [md_fields exS] in Hin.
+  repeat (destruct Hin as [<-|Hin]; [reflexivity|]). destruct Hin.
+Qed.
+Example C13_ex_proto_domain :
+  wf_msg exS [77] exM = true /\ p_dom exS LSingular (TMsg [77]) (VMsg exM) = true /\ wf_msg exS [77] (m_norm exM) = true.
+Proof. vm_compute. auto. Qed.
+Definition ex_proto_rt_b : bool :=
+  match pjson_of exS RoundTripPProofs.p2j_plain [77] exM with
+  | Some j => match pdenote false exS [77] j with ROk m' => msg_eqv m' (m_norm exM) && msg_eqv (m_norm exM) m' | _ => false end
+  | None => false
+  end.
+Example C13_ex_proto_round_trip : ex_proto_rt_b = true.
+Proof. vm_cast_no_check (eq_refl true). Qed.
+
+(* the recorded defects contradict the statement: 1324 (bare payloads are not the message) and 1322 (the sign bit is part of it) *)
+Example C13_quirk_unpacked_refuted :
+  q_encode_msg [(1, VList false [VScalar 5 5; VScalar 5 7])] = [5; 7] /\
+  encode_msg [(1, VList false [VScalar 5 5; VScalar 5 7])] = [8; 5; 8; 7].
+Proof. vm_compute. auto. Qed.
+Example C13_quirk_proto_negzero_refuted :
+  msg_eqv [(1, VList true [VScalar 1 (2 ^ 63)])] (m_drop_negzero [(1, VList true [VScalar 1 (2 ^ 63)])]) = false.
+Proof. vm_compute. reflexivity. Qed.
+End ProtoHalf.
